@@ -182,7 +182,12 @@ def run(tier, seed, vh, only_paths=None, mode=None):
                         continue
                     if v in ("xattr", "xtomb") and not set(sc["prog"].values()) <= {"update", "casw", "set"}:
                         continue
-                    cases.append(to_case("%s-%d-%s" % (scen, i, v), SCENARIOS[scen], sc["prog"], sc["sched"], v))
+                    case = to_case("%s-%d-%s" % (scen, i, v), SCENARIOS[scen], sc["prog"], sc["sched"], v)
+                    # every other feed case runs with the physical clock standing still, so that consecutive
+                    # mutations carry consecutive CAS values (checkpoint + 1 is then a document's CAS)
+                    if scen in ("order", "join", "resume") and i % 2 == 1:
+                        case["frozen"] = True
+                    cases.append(case)
         res["gen_states"] = gen_states
         res["schedules_available"] = counts
         mode = mode or ("mem" if tier == "quick" else "both")
